@@ -369,6 +369,9 @@ func genAdversarialOp(rng *rand.Rand, g *GenesisSpec) Op {
 }
 
 func genC20(rng *rand.Rand, seed uint64, tier string) *Script {
+	if rng.IntN(4) == 0 {
+		return genBusScript(rng, seed)
+	}
 	g, _ := mixedGenesis(rng)
 	g.Erc20Native, g.StakingCpc = true, true
 	// extreme but valid consensus parameters are part of the quantifier
@@ -394,6 +397,10 @@ func genC20(rng *rand.Rand, seed uint64, tier string) *Script {
 
 // runC20: the adversarial history, then the transparency twin.
 func runC20(rt *Runtime, r *RunCtx, s *Script) {
+	if s.Extra["sched"] == "bus" {
+		runBusScenario(rt, r, s)
+		return
+	}
 	var w *World
 	rt.Bubble(s.WallOffsetS, func() {
 		w = runMixedIn(r, s)
